@@ -71,9 +71,9 @@ type Script struct {
 	Chunks []int
 	// CutAt >= 0: after that many octets were read the reader sees EOF; later octets are lost.
 	CutAt int
-	// WriteLimit[i] >= 0: the i-th Write call (0-based) accepts only that many octets and
-	// fails with a timeout error, as a real conn does when its write deadline passes.
-	WriteLimit map[int]int
+	// WriteBudget >= 0 (set with Conn.ScriptWrite): the direction accepts that many octets in
+	// all; the Write call that would exceed it is cut short and fails with a timeout error, as
+	// a real conn does when its write deadline passes half way, and so does every later one.
 	// DryTimeout: a Read that finds nothing to deliver fails with a timeout error at once
 	// (a deadline that passes while the peer is silent, without waiting for real time).
 	DryTimeout bool
@@ -90,6 +90,7 @@ type stream struct {
 	rclosed   bool
 	rd, wd    deadline
 	sc        Script
+	budget    int // -1: unlimited
 	nwrite    int
 	writes    []int // size of every Write call, in order
 	total     int   // octets ever written
@@ -101,7 +102,7 @@ type stream struct {
 }
 
 func newStream() *stream {
-	s := &stream{}
+	s := &stream{budget: -1}
 	s.sc.CutAt = -1
 	s.cond = sync.NewCond(&s.mu)
 	return s
@@ -176,12 +177,14 @@ func (s *stream) write(p []byte) (int, error) {
 	if s.wd.expired() {
 		return 0, ErrTimeout
 	}
-	i := s.nwrite
 	s.nwrite++
 	n := len(p)
 	var err error
-	if lim, ok := s.sc.WriteLimit[i]; ok && lim >= 0 && lim < n {
-		n, err = lim, ErrTimeout
+	if s.budget >= 0 {
+		if n > s.budget {
+			n, err = s.budget, ErrTimeout
+		}
+		s.budget -= n
 	}
 	s.buf = append(s.buf, p[:n]...)
 	s.writes = append(s.writes, n)
@@ -218,18 +221,15 @@ func Pipe() (*Conn, *Conn) {
 // ScriptRead sets the script of the direction this end reads from.  Call before use.
 func (c *Conn) ScriptRead(sc Script) {
 	c.r.mu.Lock()
-	w := c.r.sc.WriteLimit
 	c.r.sc = sc
-	if sc.WriteLimit == nil {
-		c.r.sc.WriteLimit = w
-	}
+	c.r.cond.Broadcast()
 	c.r.mu.Unlock()
 }
 
-// ScriptWrite sets the short-write script of the direction this end writes to.
-func (c *Conn) ScriptWrite(limits map[int]int) {
+// ScriptWrite: the direction this end writes to accepts only budget more octets (-1: no limit).
+func (c *Conn) ScriptWrite(budget int) {
 	c.w.mu.Lock()
-	c.w.sc.WriteLimit = limits
+	c.w.budget = budget
 	c.w.mu.Unlock()
 }
 
@@ -346,6 +346,21 @@ func (l *Listener) Dial() *Conn {
 	c, s := Pipe()
 	l.DialWith(s)
 	return c
+}
+
+// DialNamed is Dial with a client address of the caller's choice (what the server sees as RemoteAddr).
+func (l *Listener) DialNamed(name string) *Conn {
+	c, s := Pipe()
+	c.laddr, s.raddr = Addr(name), Addr(name)
+	l.DialWith(s)
+	return c
+}
+
+// PipeNamed is Pipe with a client address of the caller's choice.
+func PipeNamed(name string) (*Conn, *Conn) {
+	c, s := Pipe()
+	c.laddr, s.raddr = Addr(name), Addr(name)
+	return c, s
 }
 
 // DialWith queues an already prepared server end (so that scripts can be set first).
